@@ -4,6 +4,7 @@ import (
 	"fmt"
 	"go/token"
 	"go/types"
+	"os"
 	"path/filepath"
 	"regexp"
 	"strings"
@@ -296,6 +297,7 @@ var stringsModels = map[string]string{
 	"strings.IndexByte":    "VerifModelIndexByte",
 	"strings.Count":        "VerifModelCount",
 	"strings.ReplaceAll":   "VerifModelReplaceAll",
+	"strings.Replace":      "VerifModelReplace",
 	"strings.TrimLeft":     "VerifModelTrimLeft",
 	"strings.TrimRight":    "VerifModelTrimRight",
 	"strings.Trim":         "VerifModelTrim",
@@ -354,7 +356,7 @@ func (e *stubEnv) external(r *engine.Run, fn *ssa.Function, args []engine.Value,
 			}
 		}
 		er := newError(r, "errorf", items...)
-		if v, ok := nativeSprint("fmt.Sprintf", args); ok {
+		if v, ok := nativeSprint("fmt.Sprintf", stringifyArgs(r, args, site)); ok {
 			er.V.(*engine.Opaque).Attrs = map[string]engine.Value{"msg": v}
 		}
 		return er, true
@@ -416,7 +418,12 @@ func (e *stubEnv) external(r *engine.Run, fn *ssa.Function, args []engine.Value,
 		return engine.Tuple{engine.Pointer{}, newError(r, "regexp", args[0])}, true
 	case "regexp.MustCompile":
 		if p, ok := concStr(args[0]); ok {
-			return engine.Host{V: regexp.MustCompile(p)}, true
+			re, err := regexp.Compile(p)
+			if err != nil {
+				// the program panics here
+				panic(&engine.TargetPanic{Kind: "explicit", Msg: "regexp: Compile(" + p + "): " + err.Error(), Pos: r.Pos(site.Pos())})
+			}
+			return engine.Host{V: re}, true
 		}
 		return engine.Host{V: r.NewOpaque("regexp")}, true
 	case "(*regexp.Regexp).MatchString":
@@ -613,6 +620,84 @@ func (e *stubEnv) invoke(r *engine.Run, recv engine.Iface, method *types.Func, a
 		return engine.Str{Atom: r.Fresh(engine.AtomSort, "errmsg")}, true
 	}
 	return nil, false
+}
+
+// stringifyArgs: operands of a formatting call that are values of the program (not constants, strings or native
+// objects) and have an Error or String method are replaced by the result of that method, as fmt does.
+func stringifyArgs(r *engine.Run, args []engine.Value, site ssa.Instruction) []engine.Value {
+	if len(args) == 0 {
+		return args
+	}
+	s, ok := args[len(args)-1].(engine.Slice)
+	if !ok {
+		return args
+	}
+	var elems []engine.Value
+	for i := 0; i < s.Len; i++ {
+		el := s.Elems[i]
+		ifc, isIface := el.(engine.Iface)
+		if isIface && ifc.T != nil {
+			switch ifc.V.(type) {
+			case *engine.Term, engine.Str, engine.Host:
+			default:
+				if o, isErr := ifc.V.(*engine.Opaque); isErr && ifc.T == errDynType {
+					if m, ok := o.Attrs["msg"].(engine.Str); ok {
+						el = engine.Iface{T: types.Typ[types.String], V: m}
+					} else if o.Kind == "errors.New" && len(o.Items) == 1 {
+						if m, ok := o.Items[0].(engine.Str); ok {
+							el = engine.Iface{T: types.Typ[types.String], V: m}
+						}
+					}
+				} else if st, isStruct := ifc.V.(engine.Struct); isStruct && ifc.T.String() == "golang.org/x/tools/go/packages.Error" && len(st) >= 2 {
+					// (packages.Error).Error: Pos + ": " + Msg, with "-" for an empty Pos (its body is not loaded)
+					pos, okP := concStr(st[0])
+					msg, okM := concStr(st[1])
+					if okP && okM {
+						if pos == "" {
+							pos = "-"
+						}
+						el = engine.Iface{T: types.Typ[types.String], V: engine.ConcStr(pos + ": " + msg)}
+					}
+				} else if str, ok := callStringer(r, ifc, site); ok {
+					el = engine.Iface{T: types.Typ[types.String], V: str}
+				}
+			}
+		}
+		elems = append(elems, el)
+	}
+	out := append([]engine.Value{}, args...)
+	ns := s
+	ns.Elems = elems
+	out[len(out)-1] = ns
+	return out
+}
+
+func callStringer(r *engine.Run, ifc engine.Iface, site ssa.Instruction) (res engine.Str, ok bool) {
+	defer func() {
+		if rec := recover(); rec != nil {
+			if os.Getenv("VERIF_DEBUG_STRINGER") != "" {
+				fmt.Fprintf(os.Stderr, "stringer %s: %v\n", ifc.T, rec)
+			}
+			ok = false
+		}
+	}()
+	for _, name := range []string{"Error", "String"} {
+		sel := types.NewMethodSet(ifc.T).Lookup(nil, name)
+		if sel == nil {
+			continue
+		}
+		fn := r.Ex.Prog.MethodValue(sel)
+		if fn == nil {
+			continue
+		}
+		if fn.Pkg != nil {
+			fn.Pkg.Build()
+		}
+		if str, isStr := r.CallFunction(fn, []engine.Value{ifc.V}, site).(engine.Str); isStr {
+			return str, true
+		}
+	}
+	return engine.Str{}, false
 }
 
 func nativeSprint(name string, args []engine.Value) (engine.Value, bool) {
